@@ -655,6 +655,123 @@ async fn rep_reconnect(ctx: &mut Ctx, observed: bool, case: &Value) {
     }
 }
 
+/// REQ: the server puts a command frame (PING, or a second READY) on the connection between
+/// the request and its reply. Whatever the socket makes of that frame, a reply that recv
+/// returns afterwards is the reply to the request that was sent last — never an older one.
+async fn req_command_mid_request(ctx: &mut Ctx, cmd: &str, case: &Value) {
+    let mut sock = Sock::new("REQ", None);
+    let Ok(p) = Peer::attach(&sock, "REP", Some(b"server")).await else {
+        ctx.inconclusive("C08 attach".into());
+        return;
+    };
+    let mut last_sent: Option<u32> = None;
+    let mut answered = 0usize;
+    for seq in 1..=3u32 {
+        let q = rc::tagged(1, seq, &[2]);
+        match sim::complete(sock.send(&q)).await {
+            Ok(Ok(())) => last_sent = Some(seq),
+            Ok(Err(_)) => {}
+            Err(_) => {
+                ctx.violation_with("C08/req/send-hangs", "send pending".into(), case.clone());
+                return;
+            }
+        }
+        if seq == 1 {
+            // the unexpected frame, then (a moment later) the real reply to request 1
+            match cmd {
+                "ping" => p.conn.feed(&rc::command(b"PING", &[0, 10])),
+                _ => p.conn.feed(&rc::ready(b"REP", None)),
+            }
+            let _ = recv_now(&mut sock).await;
+            ctx.count("req_command_frames_mid_request");
+        }
+        // the server answers every request it has seen and not yet answered, in order
+        if !p.conn.reader_dropped() && !p.conn.writer_dropped() {
+            let seen = p.out_msgs().map(|m| m.len()).unwrap_or(0);
+            while answered < seen {
+                let reqs = p.out_msgs().unwrap_or_default();
+                if let Ok(t) = rc::parse_tag(&reqs[answered], 1) {
+                    let mut w = vec![vec![]];
+                    w.extend(rc::tagged(100, t.seq, &[1]));
+                    p.conn.feed(&rc::message(&w));
+                }
+                answered += 1;
+            }
+        }
+        match recv_now(&mut sock).await {
+            Some(Ok(m)) => match rc::parse_tag(&m, 0) {
+                Ok(t) if Some(t.seq) == last_sent => {}
+                other => {
+                    ctx.violation_with(
+                        "C08/req/reply-paired-with-the-wrong-request",
+                        format!("the server sent a {cmd} command frame between request 1 and its reply; after request #{last_sent:?} was accepted, recv returned the reply {other:?}"),
+                        case.clone(),
+                    );
+                    return;
+                }
+            },
+            _ => {}
+        }
+    }
+}
+
+/// REP: the application gives up on a reply that waits for a client that does not read;
+/// the client reads again and asks again: it is still served.
+async fn rep_abandoned_send(ctx: &mut Ctx, size: usize, case: &Value) {
+    let mut sock = Sock::new("REP", None);
+    let Ok(c) = Peer::attach(&sock, "REQ", Some(b"slow-client")).await else {
+        ctx.inconclusive("C08 attach".into());
+        return;
+    };
+    let mut w = vec![vec![]];
+    w.extend(rc::tagged(1, 1, &[2]));
+    c.send(&w);
+    if !matches!(recv_now(&mut sock).await, Some(Ok(_))) {
+        ctx.inconclusive("C08 rep_abandoned: request not received".into());
+        return;
+    }
+    c.conn.set_credit(Some(7));
+    {
+        let reply = rc::tagged(2, 1, &[size]);
+        let mut f = Managed::new(sock.send(&reply));
+        if f.poll_once().is_ready() {
+            ctx.count("rep_abandoned_send_not_reached");
+            return;
+        }
+        sim::settle().await;
+    } // dropped while waiting
+    ctx.count("rep_sends_abandoned_while_waiting_for_the_client");
+    c.conn.set_credit(None);
+    sim::settle().await;
+    let mut w2 = vec![vec![]];
+    w2.extend(rc::tagged(1, 2, &[2]));
+    c.send(&w2);
+    match recv_now(&mut sock).await {
+        Some(Ok(m)) if rc::parse_tag(&m, 0).map(|t| t.seq == 2).unwrap_or(false) => {}
+        other => {
+            ctx.violation_with("C08/rep/request-not-received-after-abandoned-send", format!("{other:?}"), case.clone());
+            return;
+        }
+    }
+    let reply2 = rc::tagged(2, 2, &[5]);
+    let r = sim::complete(sock.send(&reply2)).await;
+    sim::settle().await;
+    let mut want = vec![vec![]];
+    want.extend(reply2.clone());
+    let enc = rc::message(&want);
+    let tap = c.out_bytes();
+    let arrived = tap.len() >= enc.len() && tap[tap.len() - enc.len()..] == enc[..];
+    if !matches!(r, Ok(Ok(()))) || !arrived {
+        ctx.violation_with(
+            "C08/rep/connected-client-not-served-after-abandoned-send",
+            format!("a reply ({size}-byte body) waiting for a client that did not read was abandoned; the client read again and sent its next request, which recv returned; the reply to it: send gave {r:?}, on the client's connection: {arrived}"),
+            case.clone(),
+        );
+        return;
+    }
+    ctx.count("rep_replies_delivered_after_an_abandoned_send");
+}
+
 /// REQ: a send that FAILS (the chosen server's connection was reset) issues nothing: the
 /// socket is still idle, so the next send (to the other server) is in turn.
 async fn req_failed_send(ctx: &mut Ctx, case: &Value) {
@@ -745,6 +862,12 @@ impl Prop for C08 {
             }
         }
         v.push(json!({"kind": "req_failed_send"}));
+        for cmd in ["ping", "ready"] {
+            v.push(json!({"kind": "req_cmd_mid", "cmd": cmd}));
+        }
+        for size in [100usize, 5_000, 300_000] {
+            v.push(json!({"kind": "rep_abandoned", "size": size}));
+        }
         for n in 1..=8usize {
             for k in 0..tier.pick(100, 20_000) {
                 v.push(json!({"kind": "concurrent", "clients": n, "per": 4, "seed": mix(seed ^ (k as u64) << 8 ^ n as u64)}));
@@ -756,6 +879,14 @@ impl Prop for C08 {
     fn run(&self, case: &Value, ctx: &mut Ctx) {
         ctx.eval(hash_str(&case.to_string()), true);
         match s(case, "kind") {
+            "req_cmd_mid" => {
+                ctx.sample("req_cmd_mid", || case.clone());
+                sim::run(req_command_mid_request(ctx, s(case, "cmd"), case));
+            }
+            "rep_abandoned" => {
+                ctx.sample("rep_abandoned", || case.clone());
+                sim::run(rep_abandoned_send(ctx, u(case, "size") as usize, case));
+            }
             "req_seq" => {
                 let seq = seq_from_code(u(case, "len") as usize, u(case, "code") as usize);
                 ctx.count("req_sequences");
@@ -797,6 +928,8 @@ impl Prop for C08 {
     fn floors(&self, _tier: Tier) -> Vec<(&'static str, u64)> {
         vec![
             ("req_sequences", 126 * 6),
+            ("req_command_frames_mid_request", 2),
+            ("rep_replies_delivered_after_an_abandoned_send", 2),
             ("rep_sequences", 126 * 2),
             ("req_out_of_turn_sends", 100),
             ("req_out_of_turn_recvs", 100),
